@@ -20,14 +20,40 @@ def put(buf, pos, data):
     buf[pos:pos + len(data)] = data
 
 
-DISK_LIMIT = 2 ** 48          # nominal: every generated huge offset/size is >= 2**50, everything else < 2**32
+READ_LIMIT = 2 ** 48          # nominal: every generated huge SIZE is >= 2**50 (no machine serves such a read buffer), everything else < 2**33
+
+
+def probe_seek_limit(directory=None):
+    """the first offset a buffered reader refuses to seek to / read at on the file system that holds the temporary files (ext4: 2**44 - 4095, tmpfs: 2**63 - 4096):
+    binary search on a scratch file; monotone by the kernel's `offset > s_maxbytes` test.  The implementation side writes its images
+    to tempfile.mkdtemp(), i.e. the same tempfile.gettempdir()."""
+    import os, tempfile
+    fd, name = tempfile.mkstemp(prefix="verif_seek_", dir=directory)
+    os.write(fd, b"x" * 100); os.close(fd)
+    try:
+        with open(name, "rb") as f:          # the API the code uses: a buffered reader, seek then read
+            def ok(pos):
+                try: f.seek(pos); f.read(64); return True
+                except (OSError, ValueError, OverflowError): return False
+            lo, hi = 0, 2 ** 63          # ok(lo); 2**63 does not fit off_t
+            while hi - lo > 1:
+                mid = (lo + hi) // 2
+                if ok(mid): lo = mid
+                else: hi = mid
+            return hi
+    finally:
+        os.unlink(name)
+
+
+SEEK_LIMIT = probe_seek_limit()
+DISK_LIMIT = SEEK_LIMIT        # (name kept for callers)
 
 
 def rand_elf(rng, clean=None, file_safe=False, want=None, disk=False):
     """Returns (bytes, expect) where expect = (cap, enc, machine, flags, interp or None) when the image was laid out cleanly
     (no truncation/overlap/damage), else None.  file_safe: keep every offset/size small (for images read through a real file).
     disk: the image will be read through a real file although it is not file_safe: huge values are taken from {2**50, 2**62, 2**63-1, 2**63, max}
-    only (far from the machine-dependent limits of lseek and of a read buffer), never 2**40."""
+    and around the probed seek limit of the host's temporary directory (SEEK_LIMIT - 1, SEEK_LIMIT, SEEK_LIMIT + 1); sizes never between 2**33 and 2**50."""
     if clean is None: clean = rng.random() < 0.5
     cap, enc = rng.choice([1, 2]), rng.choice([1, 2])
     if want in ("armhf", "i686"):
@@ -60,7 +86,7 @@ def rand_elf(rng, clean=None, file_safe=False, want=None, disk=False):
             if r < 0.12: size = rng.choice([0, max(len(s) - 3, 0), len(s) + 5, 4096])
             elif r < 0.2: off = rng.choice([0, 3, blob_at + 10 ** 6, 2 ** 31])
             elif r < (0.45 if t == 3 else 0.3) and not file_safe:
-                if rng.random() < 0.5: off = rng.choice([2 ** 63 - 1, 2 ** 63, wide, 2 ** 62] + ([2 ** 50] if disk else [])) & wide
+                if rng.random() < 0.5: off = rng.choice([2 ** 63 - 1, 2 ** 63, wide, 2 ** 62] + ([2 ** 50, SEEK_LIMIT - 1, SEEK_LIMIT, SEEK_LIMIT + 1, SEEK_LIMIT // 2] if disk else [])) & wide
                 else: size = rng.choice([2 ** 63 - 1, 2 ** 63, wide, 2 ** 50 if disk else 2 ** 40] + ([2 ** 62] if disk else [])) & wide
         fields = [t, rng.randrange(8)] + [rng.randrange(2 ** 16) for _ in range(6)]
         io, isz = (1, 4) if cap == 1 else (2, 5)
@@ -74,7 +100,7 @@ def rand_elf(rng, clean=None, file_safe=False, want=None, disk=False):
     e_phoff, e_phnum = phoff, nph
     if not clean:
         r = rng.random()
-        if r < 0.08 and not file_safe: e_phoff = rng.choice([2 ** 63 - 1, 2 ** 63, 2 ** 64 - 1, 2 ** 63 - psize, 2 ** 62] + ([2 ** 50] if disk else [])) & wide
+        if r < 0.08 and not file_safe: e_phoff = rng.choice([2 ** 63 - 1, 2 ** 63, 2 ** 64 - 1, 2 ** 63 - psize, 2 ** 62] + ([2 ** 50, SEEK_LIMIT - psize, SEEK_LIMIT, SEEK_LIMIT - 2 * psize - 1] if disk else [])) & wide
         elif r < 0.14: e_phoff = rng.choice([0, 5, 10 ** 6, 2 ** 31 - 1] if not (file_safe or disk) else [10 ** 6, 2 ** 31 - 1])
         elif r < 0.2: e_phnum = rng.choice([nph + 1, nph + 3, max(nph - 1, 0), 40])
         elif r < 0.21 and not file_safe and entsize <= 64: e_phnum = 65535      # long scans over a short file
@@ -125,6 +151,9 @@ def rand_glibc_string(rng):
     M = rng.choice([2, 2, 2, 2, 3, 3, 1, 0, 4, 2, 10])
     m = rng.choice([0, 4, 5, 6, 11, 12, 13, 16, 17, 18, 27, 28, 31, 35, 39, 50, 51, 60, rng.randrange(0, 70), rng.randrange(0, 130)])
     r = rng.random()
+    if r < 0.04:          # beyond / at int()'s limit of 4300 digit characters (zero padded, so that the readable ones stay small numbers); other scripts
+        return rng.choice(["9" * 5000 + ".1", "2." + "9" * 4301, "0" * 4299 + "2.17", "0" * 4300 + "2.17", "2." + "0" * 4298 + "17", "2." + "0" * 4299 + "17",
+                           "\u0662.\u0661\u0667", "2.\u0661\u0667", "\u0662.17", "2.17\u0663", "\uff12.\uff11\uff17"])
     if r < 0.8: return "%d.%d%s" % (M, m, rng.choice(JUNK))
     if r < 0.86: return "%s%d.%s%d" % (rng.choice(["0", "00"]), M, rng.choice(["0", "00"]), m)
     return rng.choice(["", "2", "2.", ".17", "2,17", "a2.17", "2.x", "v2.17", "2 .17", "-2.17", "2.-17", "2..17", "+2.17"])
@@ -133,6 +162,9 @@ def rand_glibc_string(rng):
 def rand_musl_output(rng):
     M = rng.choice([1, 1, 1, 0, 2]); m = rng.choice([0, 1, 2, 2, 3, 5, 9, 12, 24])
     ver = "Version %d.%d%s" % (M, m, rng.choice(["", ".2", ".24", "-git-1", " x", "."]))
+    if rng.random() < 0.08:          # Unicode digits (backslash-d and int() take them), mixed scripts, numbers beyond int()'s 4300-digit limit (zero padded)
+        ver = "Version " + rng.choice(["\u0661.\u0662", "1.\u0662", "\u0661.2.3", "\uff11.\uff12", "1\u0660.3", "\u0967.\u0968", "9" * 5000 + ".1", "1." + "9" * 4301,
+                                       "0" * 4299 + "1.2", "0" * 4300 + "1.2", "1." + "0" * 4299 + "2", "1." + "0" * 4300 + "2", "\u0660" * 4300 + "1.2", "\u0660" * 4299 + "1.2"])
     first = rng.choice(["musl libc (x86_64)", "musl libc (aarch64)", "musl", "musl-libc", "  musl libc (armhf)  ", "mus", "glibc", "MUSL libc", "\tmusl libc"])
     nl = lambda: rng.choice(["\n", "\n", "\n", "\r\n", "\r", "\n\n", "\n \n", "\x0b", "\x0c", "\x1c", "\x85", " ", "\n\t\n"])
     r = rng.random()
